@@ -1,6 +1,7 @@
 package main
 
 import (
+	"os"
 	"fmt"
 	"go/token"
 	"go/types"
@@ -787,6 +788,9 @@ func (fr *Frame) enterLoop(l *Loop, phis []*ssa.Phi, phiEntry map[*ssa.Phi]Val) 
 	invs := fr.loopInvariants(l)
 	// discover the heap keys written by the loop body
 	written := fr.discoverWrites(l, phis)
+	if os.Getenv("GOVC_DEBUG_LOOPS") != "" {
+		fmt.Fprintf(os.Stderr, "loop %d of %s (top=%v) at %s: %d keys written\n", l.ord, fr.fn.Name(), fr.top, ex.prog.pos(blockPos(l.head)), len(written))
+	}
 	// inv-init
 	envE := fr.loopEnv(l, phiEntry, fr.st)
 	for _, c := range invs {
